@@ -1,5 +1,228 @@
-import SdbModel.Model.Conc
+import SdbModel.Lemmas.Serial
 import SdbModel.Generated.Protocol
-/-! # C10 — theorems under construction (see DESIGN.md section 4) -/
+
+/-!
+# C10 — No deadlock; open writers block only transactions sharing a table
+
+> WriteTxn on any set of tables - given in any order, with duplicates, from any
+> number of goroutines - together with creating and closing change iterators,
+> graveyard collection and table registration never deadlocks: every requested
+> transaction is granted once the conflicting ones finish.  An open write
+> transaction delays only transactions that share a table with it; transactions
+> on other tables run to completion meanwhile, and readers never wait.
+
+Theorems over `Model.Serial` for EVERY reachable state — any number of threads
+and tables, any table sets, any interleaving.  Iterator close, graveyard
+collection and `Changes` are write transactions on their tables (they call
+`WriteTxn`), so they are threads of this model; `registerTable` and the commit
+critical section only take the root mutex, which `C10_root_mutex_is_leaf` shows
+is a leaf lock (nothing is acquired while it is held).
+-/
 namespace Sdb
+open Serial
+
+/-- a step of an existing thread (everything except a new transaction arriving) -/
+def Serial.Progress (s : State) : Prop := ∃ s', Step s s' ∧ s'.txns.length = s.txns.length
+
+private theorem len_setTxn (l : List Txn) (i : Nat) (t : Txn) : (setTxn l i t).length = l.length := by
+  simp [setTxn]
+
+private theorem getElem?_of_lt {l : List Nat} {k : Nat} (h : k < l.length) : ∃ a, l[k]? = some a :=
+  ⟨l[k], List.getElem?_eq_getElem h⟩
+
+/-- a thread that holds all its tables, or is releasing them, can always step -/
+private theorem unblocked_steps (s : State) (inv : Inv s) (j : Nat) (u : Txn) (hj : s.txns[j]? = some u)
+    (hp : u.phase = .loaded ∨ u.phase = .stored ∨ u.phase = .acquiring u.tabs.length) : Progress s := by
+  rcases hp with hp | hp | hp
+  · cases hc : u.commit
+    · exact ⟨_, Step.abort s j u hj hp hc, len_setTxn ..⟩
+    · exact ⟨_, Step.store s j u hj hp hc, len_setTxn ..⟩
+  · have hb := inv.relBound j u hj
+    rcases Nat.lt_or_ge u.released u.tabs.length with h | h
+    · obtain ⟨tb, htb⟩ := getElem?_of_lt h
+      exact ⟨_, Step.release s j u tb hj hp htb, len_setTxn ..⟩
+    · exact ⟨_, Step.finish s j u hj hp (by omega), len_setTxn ..⟩
+  · exact ⟨_, Step.load s j u hj hp, len_setTxn ..⟩
+
+/-- the wait-for chain argument: a thread waiting for table `tb` either gets it,
+    or its holder can step, or its holder waits for a strictly LARGER table —
+    and tables are bounded -/
+private theorem progress_aux (s : State) (inv : Inv s) (B : Nat)
+    (hB : ∀ (i : Nat) (t : Txn), s.txns[i]? = some t → ∀ x ∈ t.tabs, x < B) :
+    ∀ (n i : Nat) (t : Txn) (k tb : Nat), s.txns[i]? = some t → t.phase = .acquiring k → t.tabs[k]? = some tb →
+      B - tb ≤ n → Progress s := by
+  intro n
+  induction n with
+  | zero =>
+    intro i t k tb hi _ hk hn
+    have := hB i t hi tb (List.mem_of_getElem? hk)
+    omega
+  | succ n ih =>
+    intro i t k tb hi hp hk hn
+    cases ho : s.owner tb with
+    | none => exact ⟨_, Step.acquire s i t k tb hi hp hk ho, len_setTxn ..⟩
+    | some j =>
+      obtain ⟨u, hj, hheld⟩ := inv.ownerHeld tb j ho
+      cases hup : u.phase with
+      | loaded => exact unblocked_steps s inv j u hj (Or.inl hup)
+      | stored => exact unblocked_steps s inv j u hj (Or.inr (Or.inl hup))
+      | done => simp [held, hup] at hheld
+      | acquiring k' =>
+        have hb := inv.bound j u k' hj hup
+        rcases Nat.lt_or_ge k' u.tabs.length with hlt | hge
+        · obtain ⟨tb', htb'⟩ := getElem?_of_lt hlt
+          simp only [held, hup] at hheld
+          have hlt' := ascending_take_lt u.tabs (inv.asc j u hj) k' tb' htb' tb hheld
+          have hB' := hB j u hj tb' (List.mem_of_getElem? htb')
+          exact ih j u k' tb' hj hup htb' (by omega)
+        · have : k' = u.tabs.length := by omega
+          exact unblocked_steps s inv j u hj (Or.inr (Or.inr (this ▸ hup)))
+
+private theorem exists_bound_nat (l : List Nat) : ∃ B, ∀ x ∈ l, x < B := by
+  induction l with
+  | nil => exact ⟨0, by simp⟩
+  | cons a r ih =>
+    obtain ⟨B, hB⟩ := ih
+    refine ⟨max B (a + 1), ?_⟩
+    intro x hx
+    simp only [List.mem_cons] at hx
+    rcases hx with rfl | hx
+    · omega
+    · have := hB x hx; omega
+
+private theorem exists_bound (l : List Txn) : ∃ B, ∀ t ∈ l, ∀ x ∈ t.tabs, x < B := by
+  induction l with
+  | nil => exact ⟨0, by simp⟩
+  | cons a r ih =>
+    obtain ⟨B, hB⟩ := ih
+    obtain ⟨B', hB'⟩ := exists_bound_nat a.tabs
+    refine ⟨max B B', ?_⟩
+    intro t ht x hx
+    simp only [List.mem_cons] at ht
+    rcases ht with rfl | ht
+    · have := hB' x hx; omega
+    · have := hB t ht x hx; omega
+
+/-- **deadlock freedom**: in every reachable state in which some transaction is
+    not finished, some existing thread can take a step — for any number of
+    threads, any table sets and any interleaving so far -/
+theorem C10_no_deadlock (s : State) (hr : Reachable s) (i : Nat) (t : Txn)
+    (hi : s.txns[i]? = some t) (hnd : t.phase ≠ .done) : Progress s := by
+  have inv := inv_reachable s hr
+  cases hp : t.phase with
+  | done => exact absurd hp hnd
+  | loaded => exact unblocked_steps s inv i t hi (Or.inl hp)
+  | stored => exact unblocked_steps s inv i t hi (Or.inr (Or.inl hp))
+  | acquiring k =>
+    have hb := inv.bound i t k hi hp
+    rcases Nat.lt_or_ge k t.tabs.length with hlt | hge
+    · obtain ⟨tb, htb⟩ := getElem?_of_lt hlt
+      obtain ⟨B, hB⟩ := exists_bound s.txns
+      exact progress_aux s inv B (fun j u hj => hB u (List.mem_of_getElem? hj)) (B - tb) i t k tb hi hp htb (Nat.le_refl _)
+    · have : k = t.tabs.length := by omega
+      exact unblocked_steps s inv i t hi (Or.inr (Or.inr (this ▸ hp)))
+
+/-- **only sharers delay**: a transaction that cannot take its next table is
+    delayed by ANOTHER, still open transaction that has that very table in its set -/
+theorem C10_delayed_only_by_sharer (s : State) (hr : Reachable s) (i : Nat) (t : Txn) (k tb : Nat)
+    (hi : s.txns[i]? = some t) (hp : t.phase = .acquiring k) (hk : t.tabs[k]? = some tb)
+    (hblocked : s.owner tb ≠ none) :
+    ∃ (j : Nat) (u : Txn), j ≠ i ∧ s.txns[j]? = some u ∧ tb ∈ u.tabs ∧ tb ∈ t.tabs ∧ u.phase ≠ .done := by
+  have inv := inv_reachable s hr
+  cases ho : s.owner tb with
+  | none => exact absurd ho hblocked
+  | some j =>
+    obtain ⟨u, hj, hheld⟩ := inv.ownerHeld tb j ho
+    refine ⟨j, u, ?_, hj, ?_, List.mem_of_getElem? hk, ?_⟩
+    · intro hji
+      subst hji
+      rw [hi] at hj
+      simp only [Option.some.injEq] at hj
+      subst hj
+      simp only [held, hp] at hheld
+      have := ascending_take_lt t.tabs (inv.asc j t hi) k tb hk tb hheld
+      omega
+    · unfold held at hheld
+      split at hheld
+      · exact List.mem_of_mem_take hheld
+      · exact hheld
+      · exact List.mem_of_mem_drop hheld
+      · simp at hheld
+    · intro hd; simp [held, hd] at hheld
+
+/-- **transactions on other tables run to completion meanwhile**: a transaction
+    none of whose tables is held by anybody else is never blocked — each of its
+    steps up to `done` is enabled now -/
+theorem C10_disjoint_never_blocked (s : State) (hr : Reachable s) (i : Nat) (t : Txn)
+    (hi : s.txns[i]? = some t) (hnd : t.phase ≠ .done)
+    (hfree : ∀ x ∈ t.tabs, s.owner x = none ∨ s.owner x = some i) :
+    ∃ s', Step s s' ∧ s'.txns.length = s.txns.length ∧ ∃ t', s'.txns[i]? = some t' ∧ t'.tabs = t.tabs ∧ t' ≠ t := by
+  have inv := inv_reachable s hr
+  have hex : ∃ u, s.txns[i]? = some u := ⟨t, hi⟩
+  cases hp : t.phase with
+  | done => exact absurd hp hnd
+  | loaded =>
+    cases hc : t.commit
+    · exact ⟨_, Step.abort s i t hi hp hc, len_setTxn .., { t with phase := .stored }, by simp [getElem?_setTxn _ _ _ _ hex], rfl,
+        fun h => by have := congrArg Txn.phase h; simp [hp] at this⟩
+    · exact ⟨_, Step.store s i t hi hp hc, len_setTxn .., { t with phase := .stored }, by simp [getElem?_setTxn _ _ _ _ hex], rfl,
+        fun h => by have := congrArg Txn.phase h; simp [hp] at this⟩
+  | stored =>
+    have hb := inv.relBound i t hi
+    rcases Nat.lt_or_ge t.released t.tabs.length with h | h
+    · obtain ⟨tb, htb⟩ := getElem?_of_lt h
+      exact ⟨_, Step.release s i t tb hi hp htb, len_setTxn .., { t with released := t.released + 1 }, by simp [getElem?_setTxn _ _ _ _ hex], rfl,
+        fun h => by have := congrArg Txn.released h; simp at this⟩
+    · exact ⟨_, Step.finish s i t hi hp (by omega), len_setTxn .., { t with phase := .done }, by simp [getElem?_setTxn _ _ _ _ hex], rfl,
+        fun h => by have := congrArg Txn.phase h; simp [hp] at this⟩
+  | acquiring k =>
+    have hb := inv.bound i t k hi hp
+    rcases Nat.lt_or_ge k t.tabs.length with hlt | hge
+    · obtain ⟨tb, htb⟩ := getElem?_of_lt hlt
+      have hnone : s.owner tb = none := by
+        rcases hfree tb (List.mem_of_getElem? htb) with h | h
+        · exact h
+        · obtain ⟨u, hu, hheld⟩ := inv.ownerHeld tb i h
+          rw [hi] at hu
+          simp only [Option.some.injEq] at hu
+          subst hu
+          simp only [held, hp] at hheld
+          have := ascending_take_lt t.tabs (inv.asc i t hi) k tb htb tb hheld
+          omega
+      exact ⟨_, Step.acquire s i t k tb hi hp htb hnone, len_setTxn .., { t with phase := .acquiring (k + 1) }, by simp [getElem?_setTxn _ _ _ _ hex], rfl,
+        fun h => by have := congrArg Txn.phase h; simp [hp] at this⟩
+    · have hk : k = t.tabs.length := by omega
+      exact ⟨_, Step.load s i t hi (hk ▸ hp), len_setTxn .., { t with phase := .loaded, old := s.root }, by simp [getElem?_setTxn _ _ _ _ hex], rfl,
+        fun h => by have := congrArg Txn.phase h; simp [hp] at this⟩
+
+/-- the facts about the code this rests on: table mutexes are sorted by a global
+    sequence number and taken in that order; the root mutex is a leaf (no table
+    mutex and no second root lock is requested while it is held; WriteTxn does
+    not touch it); readers take no lock at all -/
+def Conc.Protocol.rootMutexLeaf (P : Conc.Protocol) : Bool :=
+  P.lockSortsBySeq && P.lockInOrder && P.readIsSingleLoad &&
+  !P.writeTxn.contains .lockRoot && !P.commit.contains .lockTables && !P.abort.contains .lockTables &&
+  !P.abort.contains .lockRoot && !P.register.contains .lockTables &&
+  decide ((P.commit.filter (· == .lockRoot)).length = 1) && decide ((P.register.filter (· == .lockRoot)).length = 1) &&
+  decide ((P.writeTxn.filter (· == .lockTables)).length = 1) &&
+  decide (Conc.idx P.commit .lockRoot < Conc.idx P.commit .unlockRoot) &&
+  decide (Conc.idx P.register .lockRoot < Conc.idx P.register .unlockRoot) &&
+  -- nothing that can block sits inside the root critical sections
+  ((P.commit.drop (Conc.idx P.commit .lockRoot + 1)).take (Conc.idx P.commit .unlockRoot - Conc.idx P.commit .lockRoot - 1)).all
+    (fun a => match a with | .hook _ | .loadCurrentRoot | .mergeUnlocked | .collectInit | .storeRoot => true | _ => false) &&
+  ((P.register.drop (Conc.idx P.register .lockRoot + 1)).take (Conc.idx P.register .unlockRoot - Conc.idx P.register .lockRoot - 1)).all
+    (fun a => match a with | .hook _ | .loadCurrentRoot | .appendTable | .storeRoot => true | _ => false)
+
+theorem C10_root_mutex_is_leaf : Gen.protocol.rootMutexLeaf = true := by decide
+
+theorem C10_protocol_order_facts : Gen.protocol.serialWF = true := by decide
+
+/-! ## non-vacuity: a reachable state with a waiting thread -/
+example : ∃ s, Reachable s ∧ ∃ (i : Nat) (t : Txn), s.txns[i]? = some t ∧ t.phase ≠ .done ∧ s.owner 0 = some 0 := by
+  let t : Txn := { tabs := [0] }
+  have s0 : Reachable ({} : State) := .init
+  have s1 := Reachable.step _ _ s0 (Step.spawn {} t (by trivial) rfl rfl)
+  have s2 := Reachable.step _ _ s1 (Step.acquire _ 0 t 0 0 (by rfl) rfl (by rfl) (by rfl))
+  exact ⟨_, s2, 0, _, by rfl, by simp, by simp⟩
+
 end Sdb
